@@ -245,6 +245,13 @@ func (l *Link) Inject(data []byte) {
 	l.signalLocked()
 }
 
+// NSentTotal is the number of bytes ever written to the link.
+func (l *Link) NSentTotal() int64 {
+	l.W.mu.Lock()
+	defer l.W.mu.Unlock()
+	return l.NSent
+}
+
 // NSentInt is the number of bytes written so far (recorded stream offset).
 func (l *Link) NSentInt() int {
 	l.W.mu.Lock()
